@@ -78,18 +78,19 @@ var opNames = map[Op]string{
 }
 
 type Term struct {
-	op     Op
-	sort   Sort
-	args   []*Term
-	c      uint64 // constant value (masked to width; bool: 0/1)
-	name   string // var / uf name
-	p1     int    // extract hi / extend amount
-	p2     int    // extract lo
-	id     uint64
-	size   int // approximate dag size for printing decisions
-	vs     []int32
-	vsDone bool
-	pstr   string
+	op             Op
+	sort           Sort
+	args           []*Term
+	c              uint64 // constant value (masked to width; bool: 0/1)
+	name           string // var / uf name
+	p1             int    // extract hi / extend amount
+	p2             int    // extract lo
+	id             uint64
+	size           int // approximate dag size for printing decisions
+	vs             []int32
+	vsDone         bool
+	pstr           string
+	hard, hardDone bool
 }
 
 var termCounter uint64
